@@ -346,6 +346,158 @@ Section FitNotNan.
   Qed.
 End FitNotNan.
 
+
+(* ---------------- the optimiser as an interaction tree: hypotheses RELATIVE TO THE VECTORS IT EVALUATES ----------------
+   fit_skeleton_total_lemma / vertex_skeleton_total_lemma above assume the cost kernel is not NaN for EVERY parameter
+   vector (val_num, vval_num): no binary64 kernel satisfies that (p = [nan; ..], [.. inf ..], [0;0;0;2^1000;0;2^-40] give
+   NaN), so they apply to exact instances only.  They are kept because Signal/AvalTotal_proofs.v (C09) imports them.
+   The statements below replace them for C14: the optimiser is `run_strategy c (tree s)` (coq/Recon/Fit.v), and the
+   numeric gap is "the cost function returns a good number on the vectors the optimiser actually asks", which for the
+   real code says exactly: the assert at track_fitting.rs:265 (vertex_fitting.rs:231) does not fire during this fit. *)
+Section Strategy.
+  Variable F : Type.
+  Variable good : F -> Prop.
+  Variable c : list F -> res F.
+
+  Lemma run_strategy_ok : forall n t seen,
+    wf_strategy good n seen t ->
+    (forall p, In p seen -> length p = n /\ exists y, c p = Ok y) ->
+    (forall p, In p (asked c t) -> exists y, c p = Ok y /\ good y) ->
+    exists v, run_strategy c t = Ok (Some v) /\ length v = n /\ exists y, c v = Ok y.
+  Proof.
+    intros n t seen W. induction W as [seen v Hv | seen p k Lp Wk IH]; intros Hseen Hask.
+    - exists v. split; [reflexivity | apply Hseen, Hv].
+    - destruct (Hask p (or_introl eq_refl)) as (y & Ey & Gy).
+      cbn [run_strategy]. rewrite Ey. apply (IH y Gy).
+      + intros q [<- | Hq]; [split; [exact Lp | eauto] | apply Hseen, Hq].
+      + intros q Hq. apply Hask. cbn [asked]. rewrite Ey. now right.
+  Qed.
+End Strategy.
+
+(* t_range, minimal form: no numeric hypothesis at all -- the end-point parameters of a RETURNED track are values of
+   closest_t, so any range contract of closest_t holds of them *)
+Lemma fit_t_range_min_lemma :
+  forall (F point : Type) (p_r p_x p_y : point -> F) (flt feq : F -> F -> bool)
+    (fcmp : F -> F -> option comparison) (fnan : F -> bool) (fadd fsub fmul : F -> F -> F)
+    (fhalf fabs : F -> F) (fzero : F) guess6 bump point_val closest nm sd_tol_ok (pts : list point)
+    (in_range : F -> Prop), (forall hp q, in_range (closest hp q)) -> forall tr,
+  fit_cluster_to_helix F point p_r p_x p_y flt feq fcmp fnan fadd fsub fmul fhalf fabs fzero
+    guess6 bump point_val closest nm sd_tol_ok pts = Ok tr ->
+  in_range (tr_t_inner F tr) /\ in_range (tr_t_outer F tr).
+Proof.
+  intros until tr. unfold fit_cluster_to_helix.
+  destruct (3 <=? length pts)%nat; cbn [assert_]; [ | discriminate].
+  destruct (three_template_points _ _ _ _ _ _ _ _ _ _ _ _ _ pts) as [[[f m] l] | | ]; cbn [bind]; try discriminate.
+  destruct (initial_simplex _ _ _); cbn [bind]; try discriminate.
+  destruct sd_tol_ok; cbn [assert_]; try discriminate.
+  destruct (nm _ _) as [[bp | ] | | ]; cbn [bind unwrap]; try discriminate.
+  repeat (match goal with |- context [nth_res ?a ?b] => destruct (nth_res a b); cbn [bind]; try discriminate end).
+  intros E; inversion E; cbn; auto.
+Qed.
+
+(* three_template_points_total again, depending only on (N1), (N2) and the length (the lemma of Section FitProofs
+   picked up every hypothesis of its section through a `rewrite .. in *`) *)
+Lemma three_template_points_total_min :
+  forall (F point : Type) (p_r p_x p_y : point -> F) (flt feq : F -> F -> bool)
+    (fcmp : F -> F -> option comparison) (fnan : F -> bool) (fadd fsub fmul : F -> F -> F) (fhalf fabs : F -> F)
+    (pts : list point),
+  (forall x y, fnan x = false -> fnan y = false -> fcmp x y <> None) ->
+  (forall a b p, In a pts -> In b pts -> In p pts ->
+     fnan (dev F point p_r fsub fabs (fhalf (fadd (p_r a) (p_r b))) p) = false) ->
+  3 <= length pts ->
+  (exists f m l, three_template_points F point p_r p_x p_y flt feq fcmp fadd fsub fmul fhalf fabs pts = Ok (f, m, l)
+                 /\ In f pts /\ In m pts /\ In l pts)
+  \/ three_template_points F point p_r p_x p_y flt feq fcmp fadd fsub fmul fhalf fabs pts = Err E_noinit.
+Proof.
+  intros F point p_r p_x p_y flt feq fcmp fnan fadd fsub fmul fhalf fabs pts fcmp_num dev_num pts_len.
+  unfold Fit.three_template_points.
+  assert (Hne : pts <> []) by (destruct pts; cbn in pts_len; [lia | discriminate]).
+  destruct (minmax_r_some F point p_r flt pts Hne) as (f & la & E & Hf & Hla). rewrite E. cbn [unwrap bind].
+  destruct pts as [ | a t] eqn:Ep; [now destruct Hne | ]. rewrite <- Ep in *.
+  set (mid := fhalf (fadd (p_r f) (p_r la))).
+  destruct (min_by_res_ok (fun a b => unwrap (fcmp (dev F point p_r fsub fabs mid a) (dev F point p_r fsub fabs mid b)))
+              (fun p => In p pts)) with (l := t) (acc := a) as (m & Em & Hm).
+  - intros x y Hx Hy. apply unwrap_some. apply fcmp_num; apply dev_num; assumption.
+  - rewrite Ep. now left.
+  - intros x Hx. rewrite Ep. now right.
+  - rewrite Em. cbn [bind].
+    match goal with |- context [if ?c then _ else _] => destruct c end.
+    + now right.
+    + left. exists f, m, la. auto.
+Qed.
+
+Section FitEvaluated.
+  Variable F : Type.
+  Variable point : Type.
+  Variables (p_r p_x p_y : point -> F).
+  Variables (flt feq : F -> F -> bool).
+  Variable fcmp : F -> F -> option comparison.
+  Variable fnan : F -> bool.
+  Variables (fadd fsub fmul : F -> F -> F) (fhalf fabs : F -> F) (fzero : F).
+  Variable guess6 : list point -> point -> point -> point -> list F.
+  Variable bump : F -> F.
+  Variable point_val : list F -> point -> F.
+  Variable closest : list F -> point -> F.
+  Variable tree : list (list F) -> strategy F.           (* argmin: what it asks, given the initial simplex *)
+  Variable good : F -> Prop.                             (* the cost values argmin copes with (real code: not NaN) *)
+  Variable sd_tol_ok : bool.
+  Notation dev := (dev F point p_r fsub fabs).
+  Notation cost := (cost F point fnan fadd fzero point_val).
+  Notation fit_simplex := (fit_simplex F point p_r p_x p_y flt feq fcmp fadd fsub fmul fhalf fabs guess6 bump).
+  Notation fit := (fit_cluster_to_helix F point p_r p_x p_y flt feq fcmp fnan fadd fsub fmul fhalf fabs fzero
+                     guess6 bump point_val closest (fun c s => run_strategy c (tree s)) sd_tol_ok).
+  Variable pts : list point.
+  (* (N1), (N2): as before *)
+  Hypothesis fcmp_num : forall x y, fnan x = false -> fnan y = false -> fcmp x y <> None.
+  Hypothesis dev_num : forall a b p, In a pts -> In b pts -> In p pts ->
+    fnan (dev (fhalf (fadd (p_r a) (p_r b))) p) = false.
+  (* (N3e) THE NAMED NUMERIC GAP: on every parameter vector the optimiser asks for THIS cluster, started from THIS
+     cluster's initial simplex, the cost function returns (its assert!(!val.is_nan()) passes) a good number *)
+  Hypothesis cost_evaluated : forall s, fit_simplex pts = Ok s ->
+    forall p, In p (asked (cost pts) (tree s)) -> exists y, cost pts p = Ok y /\ good y.
+  (* (N4e) THE NAMED GAP argmin: on this cluster's simplex the optimiser is well formed for dimension 6 *)
+  Hypothesis tree_wf : forall s, fit_simplex pts = Ok s -> wf_strategy good 6 [] (tree s).
+  Hypothesis sd_ok : sd_tol_ok = true.
+  Hypothesis pts_len : 3 <= length pts.
+
+  Theorem fit_skeleton_total_evaluated_lemma :
+    fit pts <> Panic /\ (forall k, fit pts = Err k -> k = E_noinit).
+  Proof.
+    unfold Fit.fit_cluster_to_helix.
+    assert (L3 : (3 <=? length pts) = true) by (apply Nat.leb_le; exact pts_len). rewrite L3. cbn [assert_].
+    destruct (three_template_points_total_min F point p_r p_x p_y flt feq fcmp fnan fadd fsub fmul fhalf fabs pts
+                fcmp_num dev_num pts_len) as [(f & m & l & E & Hf & Hm & Hl) | E]; rewrite E; cbn [bind].
+    2: { split; [discriminate | intros k Hk; now inversion Hk]. }
+    destruct (initial_simplex_ok F bump (guess6 pts f m l)) as (s & Es & Fs & Ns). rewrite Es. cbn [bind].
+    rewrite sd_ok. cbn [assert_].
+    assert (Hs : fit_simplex pts = Ok s) by (unfold Fit.fit_simplex; rewrite E; cbn [bind]; exact Es).
+    destruct (run_strategy_ok F good (cost pts) 6 (tree s) [] (tree_wf s Hs)
+                (fun p (H : In p []) => match H with end) (cost_evaluated s Hs)) as (v & Ev & Lv & _).
+    rewrite Ev. cbn [bind unwrap].
+    destruct (nth_res_ok v 0 ltac:(lia)) as (? & -> & _). destruct (nth_res_ok v 1 ltac:(lia)) as (? & -> & _).
+    destruct (nth_res_ok v 2 ltac:(lia)) as (? & -> & _). destruct (nth_res_ok v 3 ltac:(lia)) as (? & -> & _).
+    destruct (nth_res_ok v 4 ltac:(lia)) as (? & -> & _). destruct (nth_res_ok v 5 ltac:(lia)) as (? & -> & _).
+    cbn [bind]. split; [discriminate | intros; discriminate].
+  Qed.
+End FitEvaluated.
+
+(* what (N3e) says in terms of the kernel: the cost function returns on p iff p has its six components and
+   norm_sqr(q, at(closest_t(q))) is not NaN for every point q of the cluster *)
+Lemma cost_ok_iff :
+  forall (F point : Type) (fnan : F -> bool) (fadd : F -> F -> F) (fzero : F) (point_val : list F -> point -> F)
+    (pts : list point) (p : list F), length p = 6 ->
+  ((exists y, cost F point fnan fadd fzero point_val pts p = Ok y) <->
+   (forall q, In q pts -> fnan (point_val p q) = false)).
+Proof.
+  intros F point fnan fadd fzero point_val pts p Lp. split.
+  - intros (y & Hy). eapply cost_ok_all. exact Hy.
+  - intros H. unfold Fit.cost.
+    destruct (nth_res_ok p 0 ltac:(lia)) as (? & -> & _). destruct (nth_res_ok p 1 ltac:(lia)) as (? & -> & _).
+    destruct (nth_res_ok p 2 ltac:(lia)) as (? & -> & _). destruct (nth_res_ok p 3 ltac:(lia)) as (? & -> & _).
+    destruct (nth_res_ok p 4 ltac:(lia)) as (? & -> & _). destruct (nth_res_ok p 5 ltac:(lia)) as (? & -> & _).
+    cbn [bind]. apply (cost_fold_ok F point fnan fadd point_val p pts fzero H).
+Qed.
+
 (* ---------------- multiset bookkeeping for position / swap_remove ---------------- *)
 Definition cnt {A} (f : A -> bool) (l : list A) : nat := length (filter f l).
 
@@ -602,6 +754,151 @@ Section VertexProofs.
 
 End VertexProofs.
 
+(* ---------------- vertex finding with the optimiser as an interaction tree (hypotheses relative to the vectors it
+   evaluates; see the comment before Section Strategy).  The lemmas of Section VertexProofs picked up every hypothesis of
+   their section (among them vval_num) through `rewrite .. in *`; the three that are needed are proved again here from the
+   hypotheses they use. *)
+Section VertexEvaluated.
+  Variable F : Type.
+  Variable point : Type.
+  Variable fcmp : F -> F -> option comparison.
+  Variable fnan : F -> bool.
+  Variable fadd : F -> F -> F.
+  Variable fzero : F.
+  Variable bump : F -> F.
+  Variable tree : list (list F) -> strategy F.
+  Variable good : F -> Prop.
+  Variable sd_tol_ok : bool.
+  Variable T : Type.
+  Variable teq : T -> T -> bool.
+  Variables (t_zb t_rad : T -> F).
+  Variable is_primary : T -> bool.
+  Variable close_z : F -> F -> bool.
+  Variable sumF : list F -> F.
+  Variable mean_z : list T -> F.
+  Variable sortP : list T -> list T.
+  Variable vpoint_of : list F -> point.
+  Variable vcost_val : list T -> list F -> T -> F.
+  Variable vguess : F -> list F.
+  Variable tclosest : T -> point -> F.
+  Notation bc_loop := (bc_loop F T t_zb close_z).
+  Notation beamline_clusters := (beamline_clusters F fcmp T t_zb close_z mean_z sortP).
+  Notation remove_all := (remove_all T teq).
+  Notation vcost := (vcost F fnan fadd fzero T vcost_val).
+  Notation vertex_best := (vertex_best F fcmp T t_zb t_rad is_primary close_z sumF mean_z sortP).
+  Notation find_vertices := (find_vertices F point fcmp fnan fadd fzero bump (fun c s => run_strategy c (tree s))
+                               sd_tol_ok T teq t_zb t_rad is_primary close_z sumF mean_z sortP vpoint_of vcost_val vguess
+                               tclosest).
+  Variable tracks : list T.
+  Hypothesis sortP_perm : forall l, Permutation (sortP l) l.
+  Hypothesis zb_cmp : forall a b, In a tracks -> In b tracks -> fcmp (t_zb a) (t_zb b) <> None.
+
+  Lemma beamline_clusters_ok_min : forall l, (forall t, In t l -> In t tracks) ->
+    exists bc, beamline_clusters l = Ok bc /\ Permutation (concat (map fst bc)) l.
+  Proof.
+    intros l Hl. unfold Fit.beamline_clusters. destruct l as [ | a t] eqn:El.
+    - exists []. split; [reflexivity | constructor].
+    - rewrite <- El in *. unfold sort_by_res.
+      assert (Hf : forallb (fun a => forallb (fun b => match fcmp (t_zb a) (t_zb b) with Some _ => true | None => false end) l) l = true).
+      { apply forallb_forall. intros x Hx. apply forallb_forall. intros y Hy.
+        destruct (fcmp (t_zb x) (t_zb y)) eqn:E; [reflexivity | ].
+        exfalso. apply (zb_cmp x y (Hl x Hx) (Hl y Hy)). exact E. }
+      rewrite Hf. cbn [bind].
+      assert (Hlen : length (sortP l) = length l) by (apply Permutation_length, sortP_perm).
+      destruct (sortP l) as [ | s0 srest] eqn:Es.
+      { rewrite El in Hlen. cbn in Hlen. lia. }
+      cbn [nth_res nth_error unwrap bind skipn].
+      destruct (bc_loop_ok F T t_zb close_z srest [] [s0] ltac:(discriminate)) as (cl & E & C). rewrite E. cbn [bind].
+      eexists; split; [reflexivity | ].
+      rewrite map_map. cbn [fst]. rewrite map_id, C. cbn. rewrite <- Es. apply sortP_perm.
+  Qed.
+
+  Hypothesis teq_sym : forall a b, teq a b = true -> teq b a = true.
+  Hypothesis teq_trans : forall a b c, teq a b = true -> teq b c = true -> teq a c = true.
+
+  Lemma remove_all_ok_min : forall vs trs,
+    (forall v, In v vs -> teq v v = true) ->
+    (forall x, cnt (fun t => teq t x) vs <= cnt (fun t => teq t x) trs) ->
+    exists r, remove_all vs trs = Ok r.
+  Proof.
+    induction vs as [ | v rest IH]; intros trs Hr Hc; cbn.
+    - eauto.
+    - assert (Hv : teq v v = true) by (apply Hr; now left).
+      assert (H1 : 1 <= cnt (fun t => teq t v) trs).
+      { specialize (Hc v). rewrite cnt_cons, Hv in Hc. lia. }
+      destruct (position_some _ _ H1) as (i & x & Ep & En & Ex). rewrite Ep. cbn [unwrap bind].
+      destruct (swap_remove_perm trs i x En) as (trs' & Es & Pm). rewrite Es. cbn [bind].
+      apply IH; [intros; apply Hr; now right | ].
+      intros y. specialize (Hc y). rewrite cnt_cons in Hc. rewrite (cnt_perm _ _ _ Pm), cnt_cons in Hc.
+      assert (Eq : teq v y = teq x y).
+      { destruct (teq v y) eqn:A, (teq x y) eqn:B; try reflexivity.
+        - rewrite (teq_trans x v y Ex A) in B. discriminate.
+        - rewrite (teq_trans v x y (teq_sym _ _ Ex) B) in A. discriminate. }
+      rewrite Eq in Hc. lia.
+  Qed.
+
+  (* (V2) sums of helix radii of sets of input tracks are not NaN *)
+  Hypothesis rad_cmp : forall x y, (forall t, In t x -> In t tracks) -> (forall t, In t y -> In t tracks) ->
+    fcmp (sumF (map t_rad x)) (sumF (map t_rad y)) <> None.
+  (* (V3e) THE NAMED NUMERIC GAP: on every vector the optimiser asks for the tracks ts / mean z the vertex fit is run on,
+     started from that fit's initial simplex, the vertex cost function returns a good number *)
+  Hypothesis vcost_evaluated : forall ts mz s, vertex_best tracks = Ok (Some (ts, mz)) ->
+    initial_simplex F bump (vguess mz) = Ok s ->
+    forall p, In p (asked (vcost ts) (tree s)) -> exists y, vcost ts p = Ok y /\ good y.
+  (* (V4e) THE NAMED GAP argmin: on that simplex the optimiser is well formed for dimension 3 *)
+  Hypothesis tree_wf : forall ts mz s, vertex_best tracks = Ok (Some (ts, mz)) ->
+    initial_simplex F bump (vguess mz) = Ok s -> wf_strategy good 3 [] (tree s).
+  Hypothesis sd_ok : sd_tol_ok = true.
+  Hypothesis teq_refl : forall t, In t tracks -> teq t t = true.
+
+  Theorem vertex_skeleton_total_evaluated_lemma : exists r, find_vertices tracks = Ok r.
+  Proof.
+    unfold Fit.find_vertices.
+    set (primary := filter is_primary tracks).
+    assert (Hp : forall t, In t primary -> In t tracks) by (intros t H; apply filter_In in H; tauto).
+    destruct (beamline_clusters_ok_min primary Hp) as (bc & Eb & Pb). rewrite Eb. cbn [bind].
+    set (cands := max_set_len F T (filter (fun c => (1 <? length (fst c))) bc)).
+    assert (Hc : forall c, In c cands -> In c bc).
+    { intros c H. unfold cands, max_set_len in H. apply filter_In in H. destruct H as [H _]. apply filter_In in H. tauto. }
+    assert (Hbc : forall c, In c bc -> forall t, In t (fst c) -> In t tracks).
+    { intros c Hcb t Ht. apply Hp. apply (Permutation_in _ Pb). apply in_concat. exists (fst c). split; [ | exact Ht].
+      apply in_map. exact Hcb. }
+    assert (Hbest : exists best, (match cands with
+              | [] => Ok None
+              | c :: t => do b <- max_by_res (fun a b => unwrap (fcmp (sumF (map t_rad (fst a))) (sumF (map t_rad (fst b))))) c t;
+                          Ok (Some b) end) = Ok best /\ (forall b, best = Some b -> In b bc)).
+    { destruct cands as [ | c t] eqn:Ec.
+      - exists None. split; [reflexivity | discriminate].
+      - destruct (max_by_res_ok (fun a b => unwrap (fcmp (sumF (map t_rad (fst a))) (sumF (map t_rad (fst b)))))
+                    (fun c => In c bc)) with (l := t) (acc := c) as (m & Em & Hm).
+        + intros x y Hx Hy. apply unwrap_some. apply rad_cmp; apply Hbc; assumption.
+        + apply Hc. now left.
+        + intros x Hx. apply Hc. now right.
+        + rewrite Em. cbn [bind]. exists (Some m). split; [reflexivity | ]. intros b Hb. now inversion Hb; subst. }
+    destruct Hbest as (best & Ebest & Hb).
+    assert (VB : vertex_best tracks = Ok best).
+    { unfold Fit.vertex_best. cbv zeta. change (filter is_primary tracks) with primary. rewrite Eb. cbn [bind].
+      exact Ebest. }
+    rewrite Ebest. cbn [bind].
+    destruct best as [[ts mz] | ].
+    - specialize (Hb _ eq_refl).
+      destruct (initial_simplex_ok F bump (vguess mz)) as (s & Es & Fs & Ns). rewrite Es. cbn [bind].
+      rewrite sd_ok. cbn [assert_].
+      destruct (run_strategy_ok F good (vcost ts) 3 (tree s) [] (tree_wf ts mz s VB Es)
+                  (fun p (H : In p []) => match H with end) (vcost_evaluated ts mz s VB Es)) as (v & Ev & Lv & _).
+      rewrite Ev. cbn [bind unwrap].
+      destruct (nth_res_ok v 0 ltac:(lia)) as (? & -> & _). destruct (nth_res_ok v 1 ltac:(lia)) as (? & -> & _).
+      destruct (nth_res_ok v 2 ltac:(lia)) as (? & -> & _). cbn [bind v_tracks].
+      rewrite map_map. cbn [fst]. rewrite map_id.
+      destruct (remove_all_ok_min ts tracks) as (r & ->).
+      + intros t Ht. apply teq_refl. apply (Hbc _ Hb). exact Ht.
+      + intros y. etransitivity; [apply (cnt_concat_in _ ts (map fst bc)); apply (in_map fst) in Hb; exact Hb | ].
+        rewrite (cnt_perm _ _ _ Pb). apply cnt_filter_le.
+      + cbn [bind]. eauto.
+    - cbn [bind remove_all Fit.remove_all]. eauto.
+  Qed.
+End VertexEvaluated.
+
 (* ---------------- the hypotheses are satisfiable: an exact toy instance ---------------- *)
 Module Toy.
   (* numbers = nat with exact operations, points = their radius; the optimiser returns the first simplex vertex *)
@@ -646,9 +943,7 @@ End Toy.
 
 (* ---------------- t_range over binary64: the fit with the real closest_t ---------------- *)
 From AG Require Recon.Helix_proofs.
-(* track_fitting.rs:112-119: the helix built from best_params *)
-Definition helix_of_params (l : list PrimFloat.float) : helix :=
-  let g i := nth i l PrimFloat.zero in mk_helix (g 0) (g 1) (g 2) (g 3) (g 4) (g 5).
+(* helix_of_params (track_fitting.rs:112-119: the helix built from best_params) is defined in Recon/Fit.v *)
 
 Theorem fit_t_range_binary64_lemma :
   forall (L : libm) (tol : PrimFloat.float) (iters : nat),
@@ -787,9 +1082,50 @@ Proof.
   - intros a b p Ha Hb Hp. unfold dev. apply dev_prim_num; apply Hr; assumption.
 Qed.
 
+
+(* the evaluated-vector form for the binary64 instance (the one the differential tag fit3 runs): (N1), (N2) discharged *)
+Theorem fit_skeleton_total_evaluated_binary64_lemma :
+  forall (L : libm) guess6 bump point_val closest (tree : list (list PrimFloat.float) -> strategy PrimFloat.float)
+    (good : PrimFloat.float -> Prop) sd_tol_ok (pts : list spoint),
+  (forall p, In p pts -> Rabs_le1 (sp_r p)) ->
+  (forall s, fit_simplex PrimFloat.float spoint sp_r (sp_x L) (sp_y L) PrimFloat.ltb PrimFloat.eqb fcmp_prim
+               PrimFloat.add PrimFloat.sub PrimFloat.mul (fun x => x / 2) PrimFloat.abs guess6 bump pts = Ok s ->
+     forall p, In p (asked (cost PrimFloat.float spoint PrimFloat.is_nan PrimFloat.add 0 point_val pts) (tree s)) ->
+     exists y, cost PrimFloat.float spoint PrimFloat.is_nan PrimFloat.add 0 point_val pts p = Ok y /\ good y) ->
+  (forall s, fit_simplex PrimFloat.float spoint sp_r (sp_x L) (sp_y L) PrimFloat.ltb PrimFloat.eqb fcmp_prim
+               PrimFloat.add PrimFloat.sub PrimFloat.mul (fun x => x / 2) PrimFloat.abs guess6 bump pts = Ok s ->
+     wf_strategy good 6 [] (tree s)) ->
+  sd_tol_ok = true -> (3 <= length pts)%nat ->
+  let fit := fit_cluster_to_helix PrimFloat.float spoint sp_r (sp_x L) (sp_y L) PrimFloat.ltb PrimFloat.eqb fcmp_prim
+               PrimFloat.is_nan PrimFloat.add PrimFloat.sub PrimFloat.mul (fun x => x / 2) PrimFloat.abs 0
+               guess6 bump point_val closest (fun c s => run_strategy c (tree s)) sd_tol_ok in
+  fit pts <> Panic /\ (forall k, fit pts = Err k -> k = E_noinit).
+Proof.
+  intros L guess6 bump point_val closest tree good sd pts Hr H3 H4 H6 H7.
+  apply fit_skeleton_total_evaluated_lemma with (good := good); try assumption.
+  - apply fcmp_prim_total.
+  - intros a b p Ha Hb Hp. unfold dev. apply dev_prim_num; apply Hr; assumption.
+Qed.
+
+(* t_range over binary64, minimal form: only the range contract of atan2 (C16_closest_t_range_partial) *)
+Theorem fit_t_range_binary64_min_lemma :
+  forall (L : libm) (tol : PrimFloat.float) (iters : nat),
+  (forall y x, Helix_proofs.rn (latan2 L y x)) ->
+  forall (flt feq : PrimFloat.float -> PrimFloat.float -> bool) fcmp fnan fadd fsub fmul fhalf fabs fzero
+    guess6 bump point_val nm sd_tol_ok (pts : list spoint) tr,
+  fit_cluster_to_helix PrimFloat.float spoint sp_r (sp_x L) (sp_y L) flt feq fcmp fnan fadd fsub fmul fhalf fabs fzero
+    guess6 bump point_val (fun hp q => closest_t L (helix_of_params hp) q tol iters) nm sd_tol_ok pts = Ok tr ->
+  Helix_proofs.rn (tr_t_inner PrimFloat.float tr) /\ Helix_proofs.rn (tr_t_outer PrimFloat.float tr).
+Proof.
+  intros L tol iters Hat flt feq fcmp fnan fadd fsub fmul fhalf fabs fzero guess6 bump point_val nm sd pts tr Htr.
+  eapply (fit_t_range_min_lemma PrimFloat.float spoint sp_r (sp_x L) (sp_y L) flt feq fcmp fnan fadd fsub fmul fhalf fabs
+            fzero guess6 bump point_val _ nm sd pts Helix_proofs.rn); [ | exact Htr].
+  intros hp q. apply Helix_proofs.closest_t_range_lemma. exact Hat.
+Qed.
+
 (* ---------------- the open finding `tinyphi`: the witness is in the class, and on the binary64 model
    (coq/Recon/Helix.v) the value of closest_t for the fit's initial guess is NaN: hypothesis (N3) fails there ------ *)
-Lemma tinyphi_witness_in_class : tinyphi_class tinyphi_witness = true.
+Lemma tinyphi_witness_in_class : tinyphi_class tinyphi_libm tinyphi_witness = true.
 Proof. vm_compute. reflexivity. Qed.
 Lemma tinyphi_witness_nan :
   match tinyphi_witness with
@@ -798,3 +1134,87 @@ Lemma tinyphi_witness_nan :
   | [] => False
   end.
 Proof. vm_compute. split; reflexivity. Qed.
+
+(* ---------------- the hypotheses (N1), (N2), (N3e), (N4e) are satisfiable by a binary64 instance with the REAL cost
+   kernel (Fit.B64: closest_t / Helix::at of coq/Recon/Helix.v over a software libm, the simplex prober mini_nm) -------- *)
+Module B64_proofs.
+  Import B64.
+  Section MiniNMwf.
+    Variable F : Type.
+    Variables (fltb : F -> F -> bool) (fadd fsub : F -> F -> F).
+    Variable good : F -> Prop.
+    Variable n : nat.
+    Notation lenp := (fun e : list F * F => length (fst e) = n).
+
+    Lemma pick_in : forall better l cur, In (pick F better cur l) (cur :: l).
+    Proof.
+      intros better. induction l as [ | x t IH]; intros cur; cbn [pick]; [now left | ].
+      destruct (IH (if better (snd x) (snd cur) then x else cur)) as [E | H].
+      - rewrite <- E. destruct (better (snd x) (snd cur)); [right; now left | now left].
+      - right; now right.
+    Qed.
+    Lemma map2_length : forall f (a b : list F), length a = n -> length b = n -> length (map2 F f a b) = n.
+    Proof.
+      intros f a. revert n. induction a as [ | x a IH]; intros m b La Lb; destruct b as [ | y b]; cbn in *; try lia.
+      destruct m; [lia | ]. f_equal. apply IH; lia.
+    Qed.
+    Lemma ask_all_wf : forall k,
+      (forall acc, acc <> [] -> Forall lenp acc -> wf_strategy good n (map fst acc) (k acc)) ->
+      forall vs acc, (vs <> [] \/ acc <> []) -> Forall (fun v => length v = n) vs -> Forall lenp acc ->
+      wf_strategy good n (map fst acc) (ask_all F vs acc k).
+    Proof.
+      intros k Hk. induction vs as [ | v t IH]; intros acc Hne Fv Fa; cbn [ask_all].
+      - apply Hk; [destruct Hne as [H | H]; [now destruct H | exact H] | exact Fa].
+      - inversion Fv as [ | v' t' Lv Ft]. apply wf_ask; [exact Lv | ]. intros y _.
+        apply (IH ((v, y) :: acc)); [right; discriminate | exact Ft | constructor; [exact Lv | exact Fa]].
+    Qed.
+    Lemma mini_nm_wf : forall s, s <> [] -> Forall (fun v => length v = n) s ->
+      wf_strategy good n [] (mini_nm F fltb fadd fsub s).
+    Proof.
+      intros s Ns Fs. unfold mini_nm. apply (ask_all_wf _) with (acc := []); [ | now left | exact Fs | constructor].
+      intros acc Na Fa. destruct acc as [ | e t]; [now destruct Na | ].
+      assert (Hin : forall better, lenp (pick F better e t)).
+      { intros better. rewrite Forall_forall in Fa. apply Fa. apply pick_in. }
+      apply wf_ask; [apply map2_length; apply Hin | ].
+      intros y _. apply wf_done.
+      destruct (pick_in fltb (e :: t) (map2 F (fun bi wi => fadd bi (fsub bi wi))
+                   (fst (pick F fltb e t)) (fst (pick F (fun x y => fltb y x) e t)), y)) as [E | H].
+      - rewrite <- E. now left.
+      - right. apply in_map. exact H.
+    Qed.
+  End MiniNMwf.
+
+  Definition good (y : PrimFloat.float) : Prop := PrimFloat.is_nan y = false.
+
+  Lemma simplex_eq : forall s,
+    fit_simplex PrimFloat.float spoint sp_r (sp_x soft_libm) (sp_y soft_libm) PrimFloat.ltb PrimFloat.eqb fcmp_prim
+      PrimFloat.add PrimFloat.sub PrimFloat.mul (fun x => PrimFloat.div x 2%float) PrimFloat.abs guess6 bump pts = Ok s ->
+    s = the_simplex.
+  Proof. intros s H. unfold the_simplex. rewrite H. reflexivity. Qed.
+
+  (* (N3e) for this instance, computed: the cost function returns a number that is not NaN on each of the eight vectors
+     the optimiser asks *)
+  Lemma evaluated_ok :
+    forallb (fun p => match the_cost p with Ok y => negb (PrimFloat.is_nan y) | _ => false end)
+            (asked the_cost (tree the_simplex)) = true
+    /\ length (asked the_cost (tree the_simplex)) = 8%nat.
+  Proof. vm_compute. split; reflexivity. Qed.
+
+  Theorem fit_total : fit pts <> Panic /\ (forall k, fit pts = Err k -> k = E_noinit).
+  Proof.
+    unfold fit. apply fit_skeleton_total_evaluated_lemma with (good := good).
+    - apply fcmp_prim_total.
+    - intros a b p Ha Hb Hp. cbn [pts In] in Ha, Hb, Hp.
+      destruct Ha as [<- | [<- | [<- | []]]]; destruct Hb as [<- | [<- | [<- | []]]]; destruct Hp as [<- | [<- | [<- | []]]];
+        vm_compute; reflexivity.
+    - intros s Hs p Hp. rewrite (simplex_eq s Hs) in Hp.
+      destruct evaluated_ok as [Hall _]. rewrite forallb_forall in Hall. specialize (Hall p Hp).
+      fold the_cost. destruct (the_cost p) as [y | | ]; try discriminate.
+      exists y. split; [reflexivity | ]. unfold good. destruct (PrimFloat.is_nan y); [discriminate | reflexivity].
+    - intros s Hs. rewrite (simplex_eq s Hs). apply mini_nm_wf.
+      + vm_compute. discriminate.
+      + vm_compute. repeat constructor.
+    - reflexivity.
+    - cbn. lia.
+  Qed.
+End B64_proofs.
